@@ -195,7 +195,7 @@ theorem implKnownField_congr (S : Schema) (fs : List FieldDesc) (j : Nat) (f : F
         · rfl
         · split
           · rfl
-          · rw [implEntryLoop_congr S _ _ L hc _ r _ _ _ (by omega)]
+          · rw [implEntryLoop_congr S _ _ L hc _ (r.take n) _ _ _ (by simp only [List.length_take]; omega)]
       | err e => rfl
       | panic => rfl
 
